@@ -32,6 +32,15 @@ func (kgraph *KVGraph) deleteGraphIndex(graph string) {
 	}
 }
 
+// validateIndexLabel rejects labels that cannot be a single component of the
+// '.' separated index field name
+func validateIndexLabel(label string) error {
+	if strings.Contains(label, ".") {
+		return fmt.Errorf("unable to index label '%s': label contains '.'", label)
+	}
+	return nil
+}
+
 func normalizePath(path string) string {
 	path = jsonpath.GetJSONPath(path)
 	path = strings.TrimPrefix(path, "$.")
@@ -62,6 +71,9 @@ func edgeIdxStruct(e *gripql.Edge) map[string]interface{} {
 //AddVertexIndex add index to vertices
 func (kgdb *KVInterfaceGDB) AddVertexIndex(label string, field string) error {
 	log.WithFields(log.Fields{"label": label, "field": field}).Info("Adding vertex index")
+	if err := validateIndexLabel(label); err != nil {
+		return err
+	}
 	field = normalizePath(field)
 	//TODO kick off background process to reindex existing data
 	return kgdb.kvg.idx.AddField(fmt.Sprintf("%s.v.%s.%s", kgdb.graph, label, field))
@@ -70,6 +82,9 @@ func (kgdb *KVInterfaceGDB) AddVertexIndex(label string, field string) error {
 //DeleteVertexIndex delete index from vertices
 func (kgdb *KVInterfaceGDB) DeleteVertexIndex(label string, field string) error {
 	log.WithFields(log.Fields{"label": label, "field": field}).Info("Deleting vertex index")
+	if err := validateIndexLabel(label); err != nil {
+		return err
+	}
 	field = normalizePath(field)
 	return kgdb.kvg.idx.RemoveField(fmt.Sprintf("%s.v.%s.%s", kgdb.graph, label, field))
 }
